@@ -98,6 +98,12 @@ def _stream_oracle(rec, cfg, out, name):
 
 def judge(case):
     out = core.Outcome()
+    if case.get("watchdog"):
+        try:
+            core.watchdog(20, _judge_iter, case, out)
+        except core.WatchdogTimeout:
+            out.bad("nontermination:watchdog", f"iteration over {case.get('stream')} hangs")
+        return out
     if case["kind"] == "stream":
         judge_stream(case, out)
     elif case["kind"] == "iter":
@@ -255,6 +261,23 @@ def _work(item):
         return st
     seqs, cfgs, bound = payload
     for name, source in seqs:
+        try:
+            core.watchdog(15, _explore_stream, name, source, cfgs, bound, tier, st)
+        except core.WatchdogTimeout:
+            out = core.Outcome()
+            out.bad("nontermination:watchdog",
+                    f"iterating stream {name} ({len(source)} B) under all configurations did not "
+                    f"finish within the 15 s wall-clock backstop")
+            st.add({"kind": "iter", "stream": name, "source": source,
+                    "cfg": {"q": 1, "v": 1, "p": True, "h": True}, "watchdog": True}, out)
+            st.capped = True
+            st.notes.append(f"work item abandoned after watchdog on stream {name}")
+            break
+    return st
+
+
+def _explore_stream(name, source, cfgs, bound, tier, st):
+    if True:
         for cfg in cfgs:
             case0 = {"kind": "iter", "stream": name, "source": source, "cfg": cfg}
             st.add(case0, judge(case0))
@@ -270,7 +293,6 @@ def _work(item):
             for choices, _devs, out in explore(body, bound=b):
                 st.add({"kind": "stream", "stream": name, "source": source, "cfg": cfg,
                         "choices": list(choices)}, out)
-    return st
 
 
 def run(tier, seed, t0):
